@@ -29,7 +29,7 @@ CLAIMED = {
  "C15": ("fault injection at k-th Fill / extender call / output Write on hooked scenarios + monitor (error reported once, no frame afterwards, Wait returns, no hang, no leak); width-rendezvous theorems (Sync.v) for the mid-sync case",
          "Theorems in Props/C15.v over the acceptor: the error latches, cancels and no cycle begins again; no further frame in any continuation; reported at most once; the failing cycle is drained; width sync cannot wedge. Tie: faults family (k-th Fill / extender / Write fails; half perturbed; a second manual refresh pending during the failing cycle) replayed by the model + monitor (error line exactly once, no frame afterwards, Wait returns, no leak). Defect D8 is fixed in /repo.", "0.3 (D8), 0.7, 7 (C15)"),
  "C16": (CONT, "Theorems in Props/C16.v: once the container goroutine has returned, the heap manager was ended and every actor has exited, only answers to client calls are possible, for ever (Dead states); each stop is final; the `go` statements of the library are exactly the 13 of GenChecks.expected_spawns and every service loop watches a done channel (tables regenerated from the source on every run). Tie: goroutine probe (runtime.Stack) after every scenario of the frames, sched, faults and late families.", "0.7, 7 (C16)"),
- "C17": (CONT, "Theorems in Props/C17.v: a parked successor is in none of the places rows are drawn from; it stays parked until the flush of the predecessor's shutdown-1 frame; promotion inherits the priority, pushes with sync and retires the predecessor; and the refutation of the last sentence of the property (late successor never displayed in any continuation; second successor overwrites the first) with accepted witness runs. Tie: acceptor models queueBars; monitor on rows; the two directed witnesses are replayed against the code on every run and reported as the open known findings D7a / D7b.", "0.3 (D7), 0.7, 7 (C17)"),
+ "C17": (CONT, "Theorems in Props/C17.v: a parked bar is in none of the places rows are drawn from; it stays parked until the flush of the predecessor's shutdown-1 frame and no other Add disturbs it; that flush releases EVERY bar parked behind the predecessor (any number), in order, with the predecessor's priority, pushed with sync, and retires the predecessor; nobody is parked behind a released bar (invariant over all accepted traces); a bar queued after a released bar is pushed at once with the priority the predecessor had at its release. Tie: acceptor models queueBars / relieved / lastPriority; monitor on frames (hidden while parked, in the next cycle after the hand-over or after a late Add, with the predecessor's priority, predecessor not drawn again); generator creates successors before and after the hand-over, several per predecessor, chains. Defects D7a (late successor) and D7b (second successor) were found by directed witnesses, are fixed in /repo (b0086b9) and their witnesses run first from corpus/C17.", "0.3 (D7), 0.7, 7 (C17)"),
  "C18": (CONT, "Theorems in Props/C18.v: next pop priority at the shutdown-1 flush, rows counted and bar retired at shutdown-2, never drawn again, popped rows persist on the line terminal, pop priorities monotone, no-pop bars keep their place, rows in priority order. Tie: acceptor checks popCount / pop priorities; monitor replays the output on a line-level terminal (every popped bar on screen exactly once, final, above live bars, in finishing order).", "0.7, 7 (C18)"),
  "C19": ("Coq theorems over the proxy model (transparency, Close forwarding, fast path iff, bytes accounted = capped sum for every chunking, every sample delivered) + differential correspondence on scripted readers/writers + independent monitor",
          "Props/C19.v; 1500 scripted cases per quick run over all 16 shapes of wrapped value x ewma depth x total class.", "7 (C19)"),
